@@ -26,6 +26,10 @@ class Violation(Exception):
     """The library under test broke the clause on this case."""
 
 
+class Inconclusive(Exception):
+    """A case that could not be evaluated for lack of resources (memory); counted, never reported as a violation."""
+
+
 class HarnessError(Exception):
     """The checking machinery itself is wrong / unhealthy (exit 2)."""
 
@@ -80,6 +84,9 @@ class Ctx(object):
                 return fn(*args, **kwargs)
         except Violation:
             raise
+        except MemoryError as e:
+            # the machine, not the library, ran out: the case is inconclusive (a resource limit is never a violation)
+            raise Inconclusive("out of memory in %s: %s" % (getattr(fn, "__name__", str(fn)), str(e)[:120]))
         except Exception as e:  # noqa
             name = getattr(fn, "__name__", str(fn))
             raise Violation("%s raised %s: %s" % (name, type(e).__name__, str(e)[:200]))
